@@ -200,10 +200,14 @@ SelfRemove(h) ==
 (* detached (slot cleared) and a goroutine runs its close protocol.          *)
 (* Called by Close() and by process() on a read error (possibly both).       *)
 (***************************************************************************)
-ShutdownBegin ==
+\* closeWith(err): e = 1 when err # nil (the reader goroutine's call), 0 for Close()
+ShutdownWith(e) ==
   /\ mu = Free
   /\ stream' = "closed"
-  /\ mu' = (IF LiveIdx = {} THEN Free ELSE [op |-> "shutdown"])
+  /\ mu' = (IF LiveIdx = {} THEN Free ELSE [op |-> "shutdown", err |-> e])
+
+ShutdownBegin ==
+  /\ ShutdownWith(0)
   /\ UNCHANGED <<slots, hst, delivered, taken, cap, closerN, closeN, proc, inbox, cur, res>>
 
 Detach(h) ==
@@ -235,7 +239,7 @@ ReadErr ==
 \* ... and then calls closeWith(err) itself and returns
 ProcShutdown ==
   /\ proc = "closing"
-  /\ ShutdownBegin!1 /\ ShutdownBegin!2 /\ ShutdownBegin!3
+  /\ ShutdownWith(1)
   /\ proc' = "stopped"
   /\ UNCHANGED <<slots, hst, delivered, taken, cap, closerN, closeN, inbox, cur, res>>
 
